@@ -503,7 +503,7 @@ func permutations(n int) [][]int {
 func checkC19(rep *Report, rng *Rng, tier string) {
 	n := 100
 	if tier == "thorough" {
-		n = 1200 // every history costs ~30 model evaluations on file images (exact read lists)
+		n = 500 // every history costs ~50 model evaluations on file images (exact read lists, runs with flushes)
 	}
 	rep.Rule = "seeded histories over flushed, re-opened (nothing cached) and partially evicted stores with large and small values; every ReadAt issued during a key-only call (GetItem/MinItem/MaxItem/visits/iterators with withValue=false, Exist, Len, Set, Delete) is intersected with the byte ranges of all item values (known from the write log): the intersection must be empty; every successful NewStore must issue exactly Stat + the 24-byte trailer read + one read of the root record, whatever the file size; non-trivial = at least one re-open and 8 ops"
 	opens := 0
